@@ -39,6 +39,7 @@ fn main() {
         "C18" => props::c18::run(&cfg),
         "leakrun" => props::c18::leakrun(&cfg),
         "C19" => props::c19::run(&cfg),
+        "c20gen" => props::c20::generate_cases(&cfg),
         "play" => tools::play_cmd(&args),
         "gen" => tools::gen_cmd(&cfg),
         "loadjson" => tools::loadjson_cmd(&args),
